@@ -107,6 +107,13 @@ def _build(lw, name, initial):
     )
 
 
+def _companion(lw):
+    """The labware of the same visible shape (rows x columns of well IDs) but of the other kind."""
+    if lw["kind"] == "trough":
+        return {"kind": "plate", "rows": lw["virtual_rows"], "columns": lw["columns"]}
+    return {"kind": "trough", "virtual_rows": lw["rows"], "columns": lw["columns"]}
+
+
 def _worklist(device):
     import robotools
 
@@ -217,6 +224,15 @@ def gen_case(rng, tier, index):
                         "other_wells": [list(p) for p in picks2]}
         case = {"kind": "emit", "device": device, "lw": lw, "op": op, "wells": [list(p) for p in picks],
                 "array": rng.random() < 0.4}
+        if rng.random() < 0.3:
+            # the same worklist has just handled a labware of the same visible shape but of the other kind (a trough
+            # with as many virtual rows as the plate has rows, or the other way round), through the same well IDs
+            case["companion_first"] = rng.choice(["aspirate", "dispense", "distribute"])
+        if op.startswith("transfer") and rng.random() < 0.3:
+            other = _companion(lw)
+            case["other"] = other
+            case["other_wells"] = [list(p) for p in picks]
+            return case
         if op.startswith("transfer"):
             other = _gen_lw(rng, small=True)
             oids = [(r, c) for c in range(other["columns"]) for r in range(_nr(other))]
@@ -481,8 +497,38 @@ def _run_emit(ctx, case):
     wl = _worklist(device)
     det = lambda extra=None: dict({"case": case, "records": list(wl)}, **(extra or {}))
     expected = []
+    n_before = 0
+    if case.get("companion_first"):
+        comp = _companion(lw)
+        cobj = _build(comp, "Companion", 100000.0)
+        cop = case["companion_first"]
+        cexc = None
+        cids = list(dict.fromkeys(ids))
+        try:
+            if cop == "distribute":
+                tr = _build({"kind": "trough", "virtual_rows": 2, "columns": 1}, "Reservoir", 100000.0)
+                seen_c, cdst = set(), []
+                for (r, c) in picks:
+                    k_ = (0, c) if comp["kind"] == "trough" else (r, c)
+                    if k_ not in seen_c:
+                        seen_c.add(k_)
+                        cdst.append(wid(r, c))
+                wl.distribute(tr, 0, cobj, cdst, volume=1.0)
+            else:
+                getattr(wl, cop)(cobj, cids, 1.0)
+        except Exception as e:
+            cexc = e
+        ctx.count("companion_of_same_shape_other_kind_handled_first")
+        if not ctx.check("valid_ids_are_accepted", cexc is None, lambda: det({"companion": comp, "raised": repr(cexc)})):
+            return
+        if cop != "distribute":
+            cgot = [gwl.parse(r_).f["position"] for r_ in list(wl) if r_[:2] in ("A;", "D;")]
+            cwant = [expected_position(comp, device, *rc) for rc in dict.fromkeys(picks)]
+            ctx.check("record_position_field_matches_formula", cgot == cwant,
+                      lambda: det({"companion": comp, "expected": cwant, "emitted": cgot}))
+        n_before = len(wl)
     if op == "distribute_dst":
-        return _run_emit_distribute(ctx, case, obj, wl, picks, ids, det)
+        return _run_emit_distribute(ctx, case, obj, wl, picks, ids, det, n_before)
     try:
         if op in ("aspirate", "dispense"):
             getattr(wl, op)(obj, _wells_arg(ids, case.get("array")), vols if not case.get("array") else np.array(vols))
@@ -509,7 +555,7 @@ def _run_emit(ctx, case):
     if not ctx.check("valid_ids_are_accepted", exc is None, lambda: det({"raised": repr(exc)})):
         return
     got = []
-    for rec in wl:
+    for rec in list(wl)[n_before:]:
         try:
             f = gwl.parse(rec)
         except gwl.GrammarError as e:
@@ -531,7 +577,7 @@ def _run_emit(ctx, case):
     )
 
 
-def _run_emit_distribute(ctx, case, obj, wl, picks, ids, det):
+def _run_emit_distribute(ctx, case, obj, wl, picks, ids, det, n_before=0):
     """The destination positions of the R record(s) of one distribute call are those of the named wells."""
     lw, device = case["lw"], case["device"]
     src = _build({"kind": "trough", "virtual_rows": 4, "columns": 2}, "S", 1e7)
@@ -544,7 +590,7 @@ def _run_emit_distribute(ctx, case, obj, wl, picks, ids, det):
         return
     named = sorted(expected_position(lw, device, r, c) for r, c in picks)
     addressed = []
-    for rec in wl:
+    for rec in list(wl)[n_before:]:
         try:
             f = gwl.parse(rec)
         except gwl.GrammarError as e:
